@@ -43,6 +43,8 @@ class EvalContext(metaclass=NamespaceableMeta):
                 node = self._cfgobj[key]
                 return self._eval_ctx.evaluate_node(node, self._path + [key])
 
+            path = NodePath.get_list_path(self._path + [key], check_types=False)
+            self._eval_ctx._reuse_evaluated(str(path), path)
             return super().__getitem__(key)
 
         def __getattr__(self, name):
@@ -81,6 +83,8 @@ class EvalContext(metaclass=NamespaceableMeta):
         self._removed_nodes = {}
         self._eval_cache = {}
         self._eval_cache_id = {}
+        self._eval_unsafe = set() # keys of the two caches above whose values were produced with the help of unsafe nodes
+        self._eval_unsafe_uses = 0
         self._eval_symbols = copy.copy(EvalContext._default_eval_symbols)
         if eval_symbols:
             self._eval_symbols.update(eval_symbols)
@@ -115,9 +119,22 @@ class EvalContext(metaclass=NamespaceableMeta):
         finally:
             self._require_all_safe = old
 
+    def _reuse_evaluated(self, key, path):
+        ''' Called when the value of an already evaluated node is about to be used again instead
+            of evaluating the node, ``key`` being its key in either of the caches.
+            If unsafe nodes were involved in producing the value, using it is just as unsafe
+            as evaluating them again would be.
+        '''
+        if key not in self._eval_unsafe:
+            return
+        if self._require_all_safe:
+            raise errors.UnsafeError(f'Note: the current context requires all evaluated nodes to be safe, but this one has already been evaluated with the help of at least one !unsafe node', None, str(path))
+        self._eval_unsafe_uses += 1
+
     def get_node(self, *path, **kwargs):
         path = NodePath.get_list_path(*path)
         if str(path) in self._eval_cache:
+            self._reuse_evaluated(str(path), path)
             return self._eval_cache[str(path)]
         return self.cfg.ayns.get_node(path, **kwargs)
 
@@ -134,7 +151,12 @@ class EvalContext(metaclass=NamespaceableMeta):
                 raise errors.UnsafeError(f'Note: the current context requires all evaluated nodes to be safe - see chained exceptions for more information', cfgobj, str(prefix))
 
         if id(cfgobj) in self._eval_cache_id:
+            self._reuse_evaluated(id(cfgobj), prefix)
             return self._eval_cache_id[id(cfgobj)]
+
+        unsafe_uses = self._eval_unsafe_uses
+        if not cfgobj.ayns.safe:
+            self._eval_unsafe_uses += 1
 
         evaluated_parent = None
         if prefix:
@@ -151,6 +173,8 @@ class EvalContext(metaclass=NamespaceableMeta):
 
         self._eval_cache[str(prefix)] = evaluated_cfgobj
         self._eval_cache_id[utils.persistent_id(cfgobj)] = evaluated_cfgobj
+        if self._eval_unsafe_uses != unsafe_uses:
+            self._eval_unsafe.update((str(prefix), id(cfgobj)))
         self._eval_stack.pop()
         return evaluated_cfgobj
 
@@ -167,6 +191,7 @@ class EvalContext(metaclass=NamespaceableMeta):
         self._ecfg = EvalContext.PartialChild(NodePath(), self, self._cfg)
         self._eval_cache.clear()
         self._eval_cache_id.clear()
+        self._eval_unsafe.clear()
         self.user_data = Bunch()
 
         try:
@@ -174,6 +199,7 @@ class EvalContext(metaclass=NamespaceableMeta):
         finally:
             self._eval_cache.clear()
             self._eval_cache_id.clear()
+            self._eval_unsafe.clear()
             self._cfg = None
             self._ecfg = None
 
